@@ -50,3 +50,68 @@ Theorem c06_zero_hold : forall cf pl st i,
   /\ ((i = IHold \/ i = IKA) -> conn_step cf pl st i = (st, [])).
 Proof. exact zero_hold_no_timers. Qed.
 Print Assumptions c06_zero_hold.
+
+(* ---- timed runs (Timed.v): every timed run of any length; timers never fire early ---- *)
+From Coq Require Import List. Import ListNotations.
+From Verif Require Import Timed TimedProofs.
+
+(* never torn down for hold-timer expiry earlier than the hold time after the last accepted
+   OPEN / KEEPALIVE / UPDATE *)
+Theorem c06_no_early_expiry : forall cf pl ts d r,
+  reachable_t cf pl ts -> up (c_phase (ts_conn ts)) = true -> c_holdns (ts_conn ts) <> 0 ->
+  tstep cf pl ts d IHold = Some r ->
+  ts_last_rx ts + c_holdns (ts_conn ts) <= ts_now ts + d.
+Proof. exact no_early_expiry. Qed.
+Print Assumptions c06_no_early_expiry.
+
+(* once it fires (the remote was silent that long): Hold Timer Expired, close, session over *)
+Theorem c06_expiry_action : forall cf pl ts d ts' acts,
+  (c_phase (ts_conn ts) = POpenConfirm \/ c_phase (ts_conn ts) = PEstablished) -> c_holdns (ts_conn ts) <> 0 ->
+  tstep cf pl ts d IHold = Some (ts', acts) ->
+  acts = [AWrite (notif_encode (mkNotif 4 0 []))] ++ teardown (c_phase (ts_conn ts))
+         ++ [AReturn 1 (ENotifOut (mkNotif 4 0 []))]
+  /\ c_phase (ts_conn ts') = PDone.
+Proof. exact expiry_action. Qed.
+Print Assumptions c06_expiry_action.
+
+(* while the session is up the keep-alive timer is armed with a deadline at most a third of the hold
+   time after the last KEEPALIVE; served within L, never more than H/3 + L passes without one *)
+Theorem c06_keepalive_cadence : forall cf pl ts d L,
+  reachable_t cf pl ts -> up (c_phase (ts_conn ts)) = true -> c_holdns (ts_conn ts) <> 0 ->
+  served_within L ts d ->
+  ts_now ts + d <= ts_last_ka ts + c_holdns (ts_conn ts) / 3 + L.
+Proof. exact keepalive_cadence. Qed.
+Print Assumptions c06_keepalive_cadence.
+
+Theorem c06_keepalive_fire : forall cf pl ts d ts' acts,
+  (c_phase (ts_conn ts) = POpenConfirm \/ c_phase (ts_conn ts) = PEstablished) -> c_holdns (ts_conn ts) <> 0 ->
+  tstep cf pl ts d IKA = Some (ts', acts) ->
+  acts = [AWrite keepalive_encode; AArmKA (c_holdns (ts_conn ts) / 3)]
+  /\ ts_ka ts' = Some (ts_now ts + d + c_holdns (ts_conn ts) / 3) /\ ts_last_ka ts' = ts_now ts + d.
+Proof. exact keepalive_fire. Qed.
+Print Assumptions c06_keepalive_fire.
+
+(* hold time 0: neither timer can ever fire while the session is up *)
+Theorem c06_zero_never_fires : forall cf pl ts d i,
+  reachable_t cf pl ts -> up (c_phase (ts_conn ts)) = true -> c_holdns (ts_conn ts) = 0 ->
+  (i = IHold \/ i = IKA) -> tstep cf pl ts d i = None.
+Proof. exact zero_hold_never_fires. Qed.
+Print Assumptions c06_zero_never_fires.
+
+(* non-vacuity: local hold 9 s, remote proposes 30 s; OPEN accepted at 1 s, approved, KEEPALIVE at 2 s,
+   approved (Established), keep-alive timer fires at 4 s, UPDATE at 10 s; the hold timer cannot fire
+   at 18.9 s (None) and does at 19 s *)
+Example c06_timed_example :
+  let cf := mkConf 167772161 65001 65000 9 in
+  let pl := mkPlug None (fun _ => None) [] in
+  let o := mkOpen 4 65000 30 167772162 [[mkCap 65 [0;0;253;232]]] in
+  let s := 1000000000 in
+  let pre := [(1 * s, IRd (RMsg (MOpen o))); (0, IApprove); (1 * s, IRd (RMsg MKeepalive)); (0, IApprove);
+              (2 * s, IKA); (6 * s, IRd (RMsg (MUpdate [0;0;0;0])))] in
+  match trun cf pl (tinit 0) pre with
+  | Some ts => c_phase (ts_conn ts) = PEstablished /\ c_holdns (ts_conn ts) = 9 * s /\ ts_last_rx ts = 10 * s
+               /\ tstep cf pl ts (89 * s / 10) IHold = None
+               /\ (exists r, tstep cf pl ts (9 * s) IHold = Some r)
+  | None => False
+  end.
+Proof. vm_compute. repeat split. eexists. reflexivity. Qed.
